@@ -61,6 +61,30 @@ type Protocol struct {
 	Readers              []string    // functions allowed to read shared locations non-atomically? (none by default)
 	Init                 []string    // constructor functions (may allocate the object)
 	Counters             [][2]string // ghost counters: global = sum over threads of local
+	Tokens               []tokenDecl // exclusive ghost tokens (at most one holder) and the ghosts they own
+	StepReq              []stepReq   // preconditions of steps (checked after interference, before the operation)
+}
+
+// tokenDecl: `token T owns g1,g2 acquire <kind> <loc> when <cond>`.
+// Ghost bool T_held (global) and thread-local my_T.  The step (kind, loc)
+// acquires the token when cond holds: obligation !T_held.  Owned ghosts may be
+// changed only by the holder (obligation at every step); in exchange the holder
+// sees them unchanged across interference.  Exclusivity of the holder (at most
+// one thread has my_T) is the meta-argument: my_T is set only by a step that
+// proved !T_held and T_held is never reset.
+type tokenDecl struct {
+	Name    string
+	Owns    []string
+	AcqKind string
+	AcqLoc  string
+	When    *SExpr
+	Where   string
+}
+
+type stepReq struct {
+	Kind, Loc string
+	In        []string
+	Cl        *Clause
 }
 
 func parseIn(rest string) ([]string, string) {
@@ -197,6 +221,61 @@ func (p *Protocol) parseLine(kw, rest, where string) error {
 			p.LoopInv[f[0]] = map[int][]*Clause{}
 		}
 		p.LoopInv[f[0]][n] = append(p.LoopInv[f[0]][n], cl)
+	case "token":
+		// token T owns a,b acquire <kind> <loc> when <expr>
+		f := strings.Fields(rest)
+		io, ia, iw := -1, -1, -1
+		for i, x := range f {
+			switch x {
+			case "owns":
+				io = i
+			case "acquire":
+				ia = i
+			case "when":
+				if iw < 0 {
+					iw = i
+				}
+			}
+		}
+		if len(f) < 6 || io != 1 || ia < 0 || iw != ia+3 {
+			return fmt.Errorf("%s: token T owns a,b acquire <kind> <loc> when <expr>", where)
+		}
+		td := tokenDecl{Name: f[0], AcqKind: f[ia+1], AcqLoc: f[ia+2], Where: where}
+		for _, o := range strings.Split(strings.Join(f[io+1:ia], ""), ",") {
+			if o != "" {
+				td.Owns = append(td.Owns, o)
+			}
+		}
+		w, err := parseSpec(rest[strings.Index(rest, " when ")+6:])
+		if err != nil {
+			return fmt.Errorf("%s: %v", where, err)
+		}
+		td.When = w
+		p.Tokens = append(p.Tokens, td)
+		p.Ghost = append(p.Ghost, BoundVar{Name: td.Name + "_held", Type: "bool"})
+		p.Local = append(p.Local, BoundVar{Name: "my_" + td.Name, Type: "bool"})
+	case "require":
+		// require <kind> <loc> [in F,G]: @label expr
+		i := strings.Index(rest, ":")
+		if i < 0 {
+			return fmt.Errorf("%s: require <kind> <loc>: expr", where)
+		}
+		head := strings.Fields(rest[:i])
+		if len(head) < 2 {
+			return fmt.Errorf("%s: require <kind> <loc>", where)
+		}
+		sr := stepReq{Kind: head[0], Loc: head[1]}
+		if len(head) >= 4 && head[2] == "in" {
+			for _, f := range strings.Split(strings.Join(head[3:], " "), ",") {
+				sr.In = append(sr.In, strings.TrimSpace(f))
+			}
+		}
+		cl, err := parseLabelled(rest[i+1:], where)
+		if err != nil {
+			return err
+		}
+		sr.Cl = cl
+		p.StepReq = append(p.StepReq, sr)
 	case "counter":
 		f := strings.Fields(rest)
 		if len(f) != 3 || f[1] != "by" {
@@ -248,7 +327,10 @@ type protoRun struct {
 	snap   *State // state after this thread's previous step (for relies)
 	pre    *State // state just before the current step
 	active bool
+	chans  []string // shared locations that are channels: ghost <loc>_closed
 }
+
+func chanGhost(loc string) string { return strings.ReplaceAll(loc, ".", "_") + "_closed" }
 
 func (e *Engine) ghostSort(t string) *Sort {
 	switch strings.TrimSpace(t) {
@@ -297,12 +379,39 @@ func (pr *protoRun) havocShared(e *Engine, st *State) {
 			key += "." + f
 			cur = ft
 		}
+		if _, isch := cur.Underlying().(*types.Chan); isch {
+			continue // the channel reference is immutable; its closed flag is the ghost <loc>_closed
+		}
 		for _, ks := range e.leafKeys(key, cur, 0) {
 			st.havocHeapSlot(ks, pr.self.Ref)
 		}
 	}
+	prev := map[string]Value{}
+	for k, v := range st.ghost {
+		prev[k] = v
+	}
 	for _, g := range pr.p.Ghost {
 		st.ghost[g.Name] = e.ctx.Fresh("gh_"+g.Name, e.ghostSort(g.Type))
+	}
+	for _, c := range pr.chans {
+		st.ghost[chanGhost(c)] = e.ctx.Fresh("gh_"+chanGhost(c), SBool)
+	}
+	// the holder of a token keeps it, and sees the ghosts it owns unchanged
+	for _, t := range pr.p.Tokens {
+		mine, ok := prev["my_"+t.Name].(Term)
+		if !ok {
+			continue
+		}
+		facts := []Term{st.ghost[t.Name+"_held"].(Term)}
+		for _, o := range t.Owns {
+			pv, ok1 := prev[o].(Term)
+			nv, ok2 := st.ghost[o].(Term)
+			if !ok1 || !ok2 {
+				panic(specErr{"protocol " + pr.p.Name + ": token " + t.Name + " owns undeclared ghost " + o})
+			}
+			facts = append(facts, Eq(nv, pv))
+		}
+		st.assume(Implies(mine, And(facts...)))
 	}
 }
 
@@ -368,6 +477,25 @@ func (pr *protoRun) bind(e *Engine, st *State, recv Value) {
 	for _, l := range pr.p.Local {
 		st.ghost[l.Name] = ZeroOf(e.ghostSort(l.Type))
 	}
+	pr.chans = nil
+	for _, sname := range pr.p.Shared {
+		cur := pr.selfT
+		okc := true
+		for _, f := range strings.Split(sname, ".") {
+			_, ft, ok := fieldByName(cur, f)
+			if !ok {
+				okc = false
+				break
+			}
+			cur = ft
+		}
+		if okc {
+			if _, isch := cur.Underlying().(*types.Chan); isch {
+				pr.chans = append(pr.chans, sname)
+				st.ghost[chanGhost(sname)] = e.ctx.Fresh("gh_"+chanGhost(sname), SBool)
+			}
+		}
+	}
 	st.assume(Neq(p.Ref, IntLit(0)))
 	env := pr.env(e, st, nil)
 	for _, c := range pr.p.Inv {
@@ -392,6 +520,19 @@ func (pr *protoRun) beforeAtomic(e *Engine, st *State, loc PtrV, kind string, po
 	}
 	pr.interfere(e, st)
 	pr.pre = st.clone()
+	pr.checkRequires(e, st, kind, pr.p.Shared[pr.sharedIndex(e, loc)], pos)
+}
+
+// checkRequires: declared preconditions of the step (kind, loc), evaluated
+// after interference and before the operation.
+func (pr *protoRun) checkRequires(e *Engine, st *State, kind, locName string, pos token.Pos) {
+	env := pr.env(e, st, pr.snap)
+	for i, r := range pr.p.StepReq {
+		if (r.Kind != kind && r.Kind != "any") || r.Loc != locName || !inList(r.In, pr.rel) {
+			continue
+		}
+		e.oblige(st, "proto", fmt.Sprintf("%s.step[%s %s].requires.%s", pr.p.Name, kind, locName, clauseName(r.Cl, i)), e.evalSpecBool(env, r.Cl.Expr), pos)
+	}
 }
 
 func (pr *protoRun) afterAtomic(e *Engine, st *State, loc PtrV, kind string, old, nv Term, pos token.Pos) {
@@ -444,6 +585,30 @@ func (pr *protoRun) step(e *Engine, st *State, kind, locName string, old, nv Ter
 	}
 	env = pr.env(e, st, pr.pre)
 	tag := fmt.Sprintf("step[%s %s]", kind, locName)
+	for _, t := range pr.p.Tokens {
+		held0 := pr.pre.ghost[t.Name+"_held"].(Term)
+		mine0 := pr.pre.ghost["my_"+t.Name].(Term)
+		if h1, ok := st.ghost[t.Name+"_held"].(Term); !ok || h1.S != held0.S {
+			panic(specErr{"protocol " + pr.p.Name + ": ghost updates must not assign " + t.Name + "_held"})
+		}
+		if t.AcqKind == kind && t.AcqLoc == locName {
+			tenv := pr.env(e, st, pr.pre)
+			tenv.vars["before"] = old
+			tenv.vars["after"] = nv
+			cond := e.evalSpecBool(tenv, t.When)
+			e.oblige(st, "proto", fmt.Sprintf("%s.%s.token_free.%s", pr.p.Name, tag, t.Name), Implies(cond, Not(held0)), pos)
+			st.ghost[t.Name+"_held"] = e.ctx.Define("gh_"+t.Name+"_held", Or(held0, cond))
+			st.ghost["my_"+t.Name] = e.ctx.Define("gh_my_"+t.Name, Or(mine0, cond))
+		}
+		mine1 := st.ghost["my_"+t.Name].(Term)
+		for _, o := range t.Owns {
+			v0, v1 := pr.pre.ghost[o].(Term), st.ghost[o].(Term)
+			if v0.S == v1.S {
+				continue
+			}
+			e.oblige(st, "proto", fmt.Sprintf("%s.%s.owned_changed_only_by_holder.%s", pr.p.Name, tag, o), Or(Eq(v0, v1), mine1), pos)
+		}
+	}
 	for _, c := range pr.p.Counters {
 		g1, l1 := st.ghost[c[0]].(Term), st.ghost[c[1]].(Term)
 		g0, l0 := pr.pre.ghost[c[0]].(Term), pr.pre.ghost[c[1]].(Term)
@@ -500,14 +665,36 @@ func (pr *protoRun) onSend(e *Engine, st *State, ch Term, pos token.Pos) {
 	// a channel send on a protocol channel is a step of kind "send"
 	for k, s := range pr.p.Shared {
 		_ = k
-		if v, ok := pr.chanOf(e, st, s); ok && v.S == ch.S {
+		if v, ok := pr.chanOf(e, st, s); ok && (v.S == ch.S || e.ctx.Canon(v.S) == e.ctx.Canon(ch.S)) {
 			pr.interfere(e, st)
 			pr.pre = st.clone()
+			pr.checkRequires(e, st, "send", s, pos)
+			e.oblige(st, "proto", fmt.Sprintf("%s.step[send %s].channel_not_closed", pr.p.Name, s), Not(st.ghost[chanGhost(s)].(Term)), pos)
 			pr.step(e, st, "send", s, TFalse, TFalse, pos)
 			return
 		}
 	}
 	e.oblige(st, "safe", "send_on_closed_channel", Not(e.chanGet(st, ch, "closed")), pos)
+}
+
+// onClose: closing a protocol channel is a step of kind "close"; the ghost
+// <loc>_closed records it.  ok=false: not a protocol channel.
+func (pr *protoRun) onClose(e *Engine, st *State, ch Term, pos token.Pos) bool {
+	if !pr.active {
+		return false
+	}
+	for _, s := range pr.chans {
+		if v, ok := pr.chanOf(e, st, s); ok && (v.S == ch.S || e.ctx.Canon(v.S) == e.ctx.Canon(ch.S)) {
+			pr.interfere(e, st)
+			pr.pre = st.clone()
+			pr.checkRequires(e, st, "close", s, pos)
+			e.oblige(st, "proto", fmt.Sprintf("%s.step[close %s].channel_not_closed", pr.p.Name, s), And(Neq(ch, IntLit(0)), Not(st.ghost[chanGhost(s)].(Term))), pos)
+			st.ghost[chanGhost(s)] = TTrue
+			pr.step(e, st, "close", s, TFalse, TTrue, pos)
+			return true
+		}
+	}
+	return false
 }
 
 func (pr *protoRun) chanOf(e *Engine, st *State, s string) (Term, bool) {
@@ -648,29 +835,51 @@ func (e *Engine) accessClosed(pk string, p *Protocol) string {
 				if !shared[fname] {
 					continue
 				}
+				_, fieldT, _ := fieldByName(bt, fname)
+				_, isChanField := fieldT.Underlying().(*types.Chan)
+				isInit := false
+				for _, in := range p.Init {
+					if in == rel {
+						isInit = true
+					}
+				}
+				checkCall := func(cc *ssa.CallCommon) {
+					callee := cc.StaticCallee()
+					name := ""
+					if callee != nil {
+						name = callee.String()
+					}
+					isAtomic := strings.HasPrefix(name, "sync/atomic.") || strings.HasPrefix(name, "(*go.uber.org/atomic.")
+					if !isAtomic {
+						problems = append(problems, fmt.Sprintf("%s passes &%s.%s to %s", rel, p.SelfName, fname, name))
+						return
+					}
+					writes := !(strings.Contains(name, "Load"))
+					if writes && !thread[rel] && !e.onlyCalledFrom(fn, thread) {
+						problems = append(problems, fmt.Sprintf("%s writes %s.%s (%s) but is not a thread function of protocol %s", rel, p.SelfName, fname, name, p.Name))
+					}
+				}
 				for _, ref := range *fa.Referrers() {
 					switch u := ref.(type) {
 					case *ssa.Call:
-						callee := u.Call.StaticCallee()
-						name := ""
-						if callee != nil {
-							name = callee.String()
-						}
-						isAtomic := strings.HasPrefix(name, "sync/atomic.") || strings.HasPrefix(name, "(*go.uber.org/atomic.")
-						if !isAtomic {
-							problems = append(problems, fmt.Sprintf("%s passes &%s.%s to %s", rel, p.SelfName, fname, name))
-							continue
-						}
-						writes := !(strings.Contains(name, "Load"))
-						if writes && !thread[rel] {
-							problems = append(problems, fmt.Sprintf("%s writes %s.%s (%s) but is not a thread function of protocol %s", rel, p.SelfName, fname, name, p.Name))
-						}
+						checkCall(&u.Call)
+					case *ssa.Defer:
+						// a deferred atomic operation on the location is an atomic step at return
+						checkCall(&u.Call)
 					case *ssa.Store:
+						if isChanField && isInit && u.Addr == ssa.Value(fa) {
+							if _, fresh := fa.X.(*ssa.Alloc); fresh {
+								continue // construction before publication
+							}
+						}
 						problems = append(problems, fmt.Sprintf("%s: plain store to %s.%s", rel, p.SelfName, fname))
 					case *ssa.UnOp:
+						if isChanField {
+							continue // the channel reference is immutable after construction
+						}
 						problems = append(problems, fmt.Sprintf("%s: plain load of %s.%s", rel, p.SelfName, fname))
-					case *ssa.Defer, *ssa.Go:
-						problems = append(problems, fmt.Sprintf("%s: %s.%s escapes into defer/go", rel, p.SelfName, fname))
+					case *ssa.Go:
+						problems = append(problems, fmt.Sprintf("%s: %s.%s escapes into go", rel, p.SelfName, fname))
 					case *ssa.DebugRef:
 					default:
 						problems = append(problems, fmt.Sprintf("%s: unrecognised use of &%s.%s (%T)", rel, p.SelfName, fname, ref))
@@ -683,3 +892,40 @@ func (e *Engine) accessClosed(pk string, p *Protocol) string {
 	return strings.Join(problems, "; ")
 }
 
+
+// onlyCalledFrom: fn is a helper whose every static call site lies in one of the
+// listed functions (it is inlined into them when they are verified), and it is
+// not used as a value.
+func (e *Engine) onlyCalledFrom(fn *ssa.Function, listed map[string]bool) bool {
+	if fn.Referrers() != nil && false {
+		return false
+	}
+	sites := 0
+	for g := range e.allFuncs {
+		if g.Blocks == nil {
+			continue
+		}
+		_, grel := e.relName(g)
+		for _, b := range g.Blocks {
+			for _, ins := range b.Instrs {
+				for _, op := range ins.Operands(nil) {
+					if *op != ssa.Value(fn) {
+						continue
+					}
+					ci, ok := ins.(ssa.CallInstruction)
+					if !ok || ci.Common().StaticCallee() != fn {
+						return false // taken as a value
+					}
+					if _, isGo := ins.(*ssa.Go); isGo {
+						return false
+					}
+					if !listed[grel] {
+						return false
+					}
+					sites++
+				}
+			}
+		}
+	}
+	return sites > 0
+}
